@@ -2,7 +2,10 @@
 (***************************************************************************)
 (* C18: output depends only on the inputs.                                 *)
 (* An operation's INPUTS are: the operation and its arguments, and the     *)
-(* current version of every file it names (absolute paths).  NOT inputs:   *)
+(* current version of every file it names (absolute paths; a RELATIVE path *)
+(* names the file of that name in the current directory, so for the one    *)
+(* operation that uses relative paths the directory is part of the key).   *)
+(* NOT inputs:                                                             *)
 (* what was processed earlier in the process, the order, the string-hash   *)
 (* seed, the working directory, the text format (YAML / JSON) of a         *)
 (* description.  The key of an execution is built from the inputs only;    *)
@@ -12,7 +15,7 @@
 EXTENDS Integers, Sequences, FiniteSets, TLC
 
 \* files each operation reads (the dependency relation)
-Reads(op) == CASE op \in {"create1", "create1json", "reuse1"} -> {"fw"}
+Reads(op) == CASE op \in {"create1", "create1json", "reuse1", "create3", "create3perm"} -> {"fw"}
                [] op = "create2" -> {"fw", "child"}
                [] op = "cache" -> {"fw"}
                [] op = "encrypt" -> {"fw"}
@@ -21,7 +24,11 @@ Reads(op) == CASE op \in {"create1", "create1json", "reuse1"} -> {"fw"}
                [] OTHER -> {}
 \* YAML and JSON renderings (and the re-used dictionary) denote the same description
 Canon(op) == IF op \in {"create1json", "reuse1"} THEN "create1" ELSE op
-Key(op, ver) == <<Canon(op), [f \in Reads(op) |-> ver[f]]>>
+\* create3 / create3perm: a parent whose dependency is an INLINE description that itself reads fw (perm: the same dependency with
+\* its manifest entries in another order - a different description, hence a different key); create3rel: the inline dependency
+\* names its files by relative path, and each directory holds its own file of that name
+CwdOps == {"create3rel"}
+Key(op, ver, cwd) == <<Canon(op), [f \in Reads(op) |-> ver[f]], IF op \in CwdOps THEN cwd ELSE 0>>
 
 \* refs : key id -> output id, from fresh interpreters
 RefJudge(refs, key, out) == IF key \in DOMAIN refs /\ refs[key] # out THEN "FreshInterpretersAgree" ELSE "ok"
